@@ -43,13 +43,18 @@ var opNames = []string{"fetch", "publish", "put-fresh", "put-older", "put-base-e
 	// the issuer publishes a newer base while the delta locations keep serving
 	// the delta of the previous version (whose number is then below the base's):
 	// the fetcher's business is to fetch it, judging the pair is the validator's
-	"publish-base-only"}
+	"publish-base-only",
+	// the caller changes its mind about cache errors between two fetches on the
+	// same fetcher object (the option is an exported field)
+	"flip-discard"}
 
 var faultKinds = []string{"error", "404", "garbage", "non-crl-der"}
 
 // Shapes of the base CRL's freshest-CRL extension.
 var shapes = []string{"absent", "uri1", "uri2", "uri3", "nonuri-dp-then-uri-dp", "nonuri-only", "uri-after-nonuri", "malformed", "empty-seq", "https-only", "https-then-http",
-	"malformed-uri-length", "malformed-uri-after-good", "malformed-outer-not-sequence", "malformed-point-not-sequence", "malformed-garbage-after-point"}
+	"malformed-uri-length", "malformed-uri-after-good", "malformed-outer-not-sequence", "malformed-point-not-sequence", "malformed-garbage-after-point",
+	// the extension is there, its value has no bytes at all
+	"malformed-empty-value"}
 
 // Case is one history with its configuration.
 type Case struct {
@@ -140,6 +145,8 @@ func freshestRaw(shape string) []byte {
 		return []byte{0x30, 0x05, 0x30, 0x03, 0xa0, 0x05, 0x00}
 	case "empty-seq":
 		return []byte{0x30, 0x00}
+	case "malformed-empty-value":
+		return []byte{}
 	case "malformed-uri-length":
 		// the URI element announces more bytes than its fullName holds
 		u := uri(deltaURL(0))
@@ -212,6 +219,7 @@ type model struct {
 	c                  *Case
 	version            int
 	dlag               int // versions the delta locations lag behind the base
+	discard            bool
 	cache              *entry
 	getFault, setFault bool
 	baseFault          bool
@@ -230,7 +238,7 @@ func (m *model) fetch() prediction {
 		log = append(log, "cache-get")
 		if m.getFault {
 			m.getFault = false
-			if !m.c.Discard {
+			if !m.discard {
 				return prediction{err: true, log: log}
 			}
 		} else if e := m.cache; e != nil && e.baseFresh && (e.delta < 0 || e.deltaFresh) {
@@ -270,7 +278,7 @@ func (m *model) fetch() prediction {
 		log = append(log, "cache-set")
 		if m.setFault {
 			m.setFault = false
-			if !m.c.Discard {
+			if !m.discard {
 				return prediction{err: true, log: log}
 			}
 		} else {
@@ -390,6 +398,9 @@ func step(w *world, m *model, idx, op int) (string, string) {
 		m.version++
 		w.dlag++
 		m.dlag++
+	case "flip-discard":
+		w.fetcher.DiscardCacheError = !w.fetcher.DiscardCacheError
+		m.discard = !m.discard
 	case "put-fresh":
 		put(w.version, "fresh", "fresh")
 	case "put-older":
@@ -480,7 +491,7 @@ func step(w *world, m *model, idx, op int) (string, string) {
 
 func execute(r *core.Run, c *Case) {
 	w := newWorld(c)
-	m := &model{c: c, version: 1}
+	m := &model{c: c, version: 1, discard: c.Discard}
 	for i, op := range c.Ops {
 		tag, what := step(w, m, i, op)
 		if opNames[op] == "fetch" {
@@ -588,9 +599,122 @@ func liveExpiry(r *core.Run, which string) {
 	}
 }
 
+// faultPoints: faults at one particular point of a single download, and a
+// cache attached to / detached from a fetcher that has already been used.
+func faultPoints(r *core.Run) {
+	for _, sh := range shapes {
+		u, malformed := advertisedIdx(sh)
+		obtainable := false
+		for _, k := range u {
+			if k >= 0 {
+				obtainable = true
+			}
+		}
+		if malformed || !obtainable {
+			continue
+		}
+		for _, cache := range []bool{false, true} {
+			for _, disc := range []bool{false, true} {
+				c := &Case{Shape: sh, Cache: cache, Discard: disc}
+				desc := fmt.Sprintf("shape=%s cache=%v discard=%v: the caller's context ends the moment the base CRL's reply is delivered", sh, cache, disc)
+				w := newWorld(c)
+				ctx, cancel := context.WithCancel(context.Background())
+				var once sync.Once
+				w.net.OnDeliver = func(int) { once.Do(cancel) }
+				var b *crl.Bundle
+				var err error
+				r.Eval(1)
+				if p := core.Guard(func() { b, err = w.fetcher.Fetch(ctx, baseURL) }); p != nil {
+					r.Count("panicked", 1)
+					cancel()
+					continue
+				}
+				cancel()
+				w.net.OnDeliver = nil
+				r.Nontrivial("cancel-after-base " + desc)
+				if err == nil && (b == nil || b.DeltaCRL == nil) {
+					r.Violation("delta-missing:cancelled-after-base:shape="+shapeClass(sh), desc+": Fetch returned a base-only bundle without an error although the base advertises a delta location", c)
+					continue
+				}
+				if cache {
+					if cb := w.cache.M[baseURL]; cb != nil && cb.DeltaCRL == nil {
+						r.Violation("cache-content:cancelled-after-base:shape="+shapeClass(sh), desc+": a base-only bundle was written to the cache", c)
+						continue
+					}
+				}
+				if err != nil {
+					r.Count("cancelled-after-base-failed", 1)
+				} else {
+					r.Count("cancelled-after-base-completed", 1)
+				}
+				// healthy again: the complete bundle
+				r.Eval(1)
+				b, err = nil, nil
+				if p := core.Guard(func() { b, err = w.fetcher.Fetch(context.Background(), baseURL) }); p != nil {
+					r.Count("panicked", 1)
+					continue
+				}
+				if err != nil || b == nil || num(b.BaseCRL) != 10 || num(b.DeltaCRL) != 11 {
+					r.Violation("after-cancelled-download:shape="+shapeClass(sh), fmt.Sprintf("%s; the next, healthy Fetch returned err=%v base=%d delta=%d where base 10 delta 11 are published", desc, err, numOf(b, false), numOf(b, true)), c)
+				}
+			}
+		}
+	}
+	// a cache attached to a used fetcher must be used from then on, a detached
+	// one left alone
+	for _, sh := range []string{"absent", "uri1", "uri3"} {
+		c := &Case{Shape: sh, Cache: false}
+		desc := "shape=" + sh + ": fetch without a cache, attach a cache, fetch twice, detach it, fetch"
+		w := newWorld(c)
+		fetch := func() (*crl.Bundle, error, int) {
+			before := w.net.Requests()
+			var b *crl.Bundle
+			var err error
+			r.Eval(1)
+			if p := core.Guard(func() { b, err = w.fetcher.Fetch(context.Background(), baseURL) }); p != nil {
+				return nil, fmt.Errorf("panic: %s", p.Value), 0
+			}
+			return b, err, w.net.Requests() - before
+		}
+		if _, err, n := fetch(); err != nil || n == 0 {
+			r.Violation("attach-cache:first-fetch", fmt.Sprintf("%s: first fetch err=%v requests=%d", desc, err, n), c)
+			continue
+		}
+		cache := sims.NewCache()
+		w.fetcher.Cache = cache
+		_, err, n := fetch()
+		if err != nil || n == 0 || len(cache.Log()) < 2 || cache.M[baseURL] == nil {
+			r.Violation("attached-cache-not-used", fmt.Sprintf("%s: after attaching: err=%v requests=%d cache operations=%d entry stored=%v (expected: a miss, a download, a store)", desc, err, n, len(cache.Log()), cache.M[baseURL] != nil), c)
+			continue
+		}
+		if _, err, n := fetch(); err != nil || n != 0 {
+			r.Violation("attached-cache-not-used", fmt.Sprintf("%s: the second fetch after attaching: err=%v requests=%d (expected: served from the cache)", desc, err, n), c)
+			continue
+		}
+		ops := len(cache.Log())
+		w.fetcher.Cache = nil
+		if _, err, n := fetch(); err != nil || n == 0 || len(cache.Log()) != ops {
+			r.Violation("detached-cache-still-used", fmt.Sprintf("%s: after detaching: err=%v requests=%d cache operations since=%d (expected: a download, the cache untouched)", desc, err, n, len(cache.Log())-ops), c)
+			continue
+		}
+		r.Nontrivial("attach-detach " + desc)
+		r.Count("cache-attached-later", 1)
+	}
+}
+
+func numOf(b *crl.Bundle, delta bool) int64 {
+	if b == nil {
+		return -9
+	}
+	if delta {
+		return num(b.DeltaCRL)
+	}
+	return num(b.BaseCRL)
+}
+
 func run(r *core.Run) int {
 	r.Rule = "all histories up to depth 3 (quick; depth-4 seed sample) / depth 4 (thorough; plus depth 5 for four representative shapes) over {fetch, publish, put cache entry fresh / older version / base expired / delta expired / no next-update, arm cache Get fault, arm cache Set fault, arm server fault on base, on delta location 0/1/2 (kinds error, 404, garbage, non-CRL DER)} followed by a final fetch, " +
-		"x DiscardCacheError x cache present/absent x 16 freshest-CRL shapes (5 of them malformed in different places); plus two live observations of a cached bundle (base / delta) crossing its next-update instant under continuous fetching; non-trivial = at least 2 fetches or a fault / expiry op; distinct by history + configuration"
+		"x DiscardCacheError x cache present/absent x 17 freshest-CRL shapes (6 of them malformed in different places); plus two live observations of a cached bundle (base / delta) crossing its next-update instant under continuous fetching; the caller's context ending the moment the base reply is delivered (a delta is advertised), a cache attached to / detached from a used fetcher; non-trivial = at least 2 fetches or a fault / expiry op; distinct by history + configuration"
 	r.Assume("expired = nextUpdate 2001, fresh = 2096; CRL numbers identify version and variant of every returned CRL")
 	calibrate()
 	r.Assume("live next-update observations: the wall clock does not step backwards during the three seconds they take")
@@ -602,6 +726,7 @@ func run(r *core.Run) int {
 		live.Add(1)
 		go func() { defer live.Done(); liveExpiry(r, which) }()
 	}
+	faultPoints(r)
 	depth := r.Pick(3, 4)
 	var cases []*Case
 	nOps := len(opNames)
@@ -616,7 +741,7 @@ func run(r *core.Run) int {
 						}
 						skip := false
 						for _, o := range ops {
-							if n := opNames[o]; strings.HasPrefix(n, "put-") || n == "arm-get" || n == "arm-set" {
+							if n := opNames[o]; strings.HasPrefix(n, "put-") || n == "arm-get" || n == "arm-set" || n == "flip-discard" {
 								skip = true
 							}
 						}
